@@ -43,6 +43,8 @@ class Result:
     classes: list = field(default_factory=list)
     sample: Any = None  # human-readable form (only kept for the first few non-trivial cases)
     excluded: list = field(default_factory=list)  # names of exclusion switches that fired
+    weight: int = 1  # number of individual evaluations this case stands for (grid cases)
+    nt_keys: list = field(default_factory=list)  # additional distinct non-trivial sub-cases (grid cases)
 
 
 @dataclass
@@ -74,7 +76,9 @@ class ShardOut:
     notes: list = field(default_factory=list)
 
     def record(self, r: Result):
-        self.evaluations += 1
+        self.evaluations += max(1, r.weight)
+        for k in r.nt_keys:
+            self.keys.add(hashlib.sha1(k.encode("utf-8", "replace")).hexdigest()[:16])
         for c in r.classes:
             self.classes[c] += 1
         for x in r.excluded:
